@@ -627,8 +627,7 @@ def check_fmap(desc, P, acc):
 
     # composition with every slice and with every single-span map over len(fm)
     n = len(t)
-    # a map without any span cannot be composed (nothing to index into): judged only for >= 1 span
-    for a in range(n + 1 if desc else 0):
+    for a in range(n + 1):
         for b in range(a, n + 1):
             r = obs("getitem", [a, b], lambda a=a, b=b: fm[a:b])
             expect("__getitem__(slice)", [a, b], r, want_table=t[a:b], want_parent=P)
